@@ -13,6 +13,7 @@ func init() {
 			"PV-API: getLabels (Docker labels, after the fixed labels), LabelSet.SetAttrs, json extractAll store under KeyToLabel(key) on every path",
 			"the openLog origin rule: the container id never comes from a (sanitised) label",
 			"PV-API keyword lookup exact (mixed-case names stay identifiers)",
+			"PV-ROLE ParseOptions.AllowDots reaches lexer and parser; FE-CLASS scanner identifier characters (a leading `_` starts an identifier)",
 		},
 		NotDecided: []string{"the empty key (maps to the empty name; recorded as an assumption)", "collisions of two Docker keys that sanitise to the same name", "that the representatives cover every rune: they cover both sides of every comparison constant in the ASCII range and letters/digits/symbols outside it"},
 		Rules: func(r *Run) {
